@@ -3,6 +3,7 @@ package v2
 import (
 	"bytes"
 	"encoding/binary"
+	"errors"
 	"fmt"
 	"io"
 
@@ -38,16 +39,33 @@ func (mh *MessageHandler) FromNet(p peer.ID, r io.Reader) (message.GraphSyncMess
 
 // FromMsgReader can deserialize a DAG-CBOR message into a GraphySyncMessage
 func (mh *MessageHandler) FromMsgReader(_ peer.ID, r msgio.Reader) (message.GraphSyncMessage, error) {
+	// io.EOF means a clean end of the stream, which can only happen at a message
+	// boundary: before the first byte of a length prefix.
+	if _, err := r.NextMsgLen(); err != nil {
+		return message.GraphSyncMessage{}, err
+	}
+
 	msg, err := r.ReadMsg()
 	if err != nil {
-		return message.GraphSyncMessage{}, err
+		return message.GraphSyncMessage{}, notEOF(err)
 	}
 
 	ipldGSM, err := ipldbind.BindnodeRegistry.TypeFromBytes(msg, (*ipldbind.GraphSyncMessageRoot)(nil), dagcbor.Decode)
 	if err != nil {
-		return message.GraphSyncMessage{}, err
+		return message.GraphSyncMessage{}, notEOF(err)
 	}
 	return mh.fromIPLD(ipldGSM.(*ipldbind.GraphSyncMessageRoot))
+}
+
+// notEOF turns an io.EOF met inside a message (a missing body after the length
+// prefix, or content that ends early inside a complete frame) into
+// io.ErrUnexpectedEOF, so that callers do not mistake a malformed message for
+// the end of the stream.
+func notEOF(err error) error {
+	if errors.Is(err, io.EOF) {
+		return io.ErrUnexpectedEOF
+	}
+	return err
 }
 
 // ToProto converts a GraphSyncMessage to its ipldbind.GraphSyncMessageRoot equivalent
